@@ -154,7 +154,7 @@ def run(ctx):
         m, info, mode, files, base, dup, accmode, opts = case
         n, _, _ = nl.normalize(m)
         return judge(n, mode, files, base, dup, accmode, opts, res, known)
-    res = hyp.run_property(ctx, cases(), check, ctx.pick(6000, 200000), known_keys=known, time_budget=ctx.pick(300, 3600))
+    res = hyp.run_property(ctx, cases(), check, ctx.pick(6000, 200000), known_keys=known, time_budget=ctx.pick(300, 900))
     return common.finish(ctx, res, "exploration", RULE,
                          ["generic names are AMPL's synonyms _svar/_sdvar/_scon/_slogcon/_sobj as coded in ReadNames",
                           "an auxiliary item's name is 'derived' if an original item's name is a prefix of it"])
